@@ -113,6 +113,14 @@ class Ctx:
         """a command of the Go harness module (/verif/harness/cmd/<name>), built against /repo."""
         if name not in self._harness:
             hdir = os.path.join(VERIF, "harness")
+            if REPO != "/repo":
+                # mutation testing against a scratch worktree: build a copy of the harness that points at it
+                h2 = os.path.join(self.scratch, "harness")
+                if not os.path.exists(h2):
+                    shutil.copytree(hdir, h2, ignore=shutil.ignore_patterns("bin"))
+                    gm = open(os.path.join(h2, "go.mod")).read().replace("=> /repo", "=> " + REPO)
+                    open(os.path.join(h2, "go.mod"), "w").write(gm)
+                hdir = h2
             # go.sum must be the repo's (offline); copy on every run so it follows /repo
             shutil.copyfile(os.path.join(REPO, "go.sum"), os.path.join(hdir, "go.sum"))
             out = os.path.join(self.scratch, "bin", name)
